@@ -31,6 +31,35 @@ var pool = []arg{
 	// designators and ragged structures (added after seeded changes C09-1 and C09-3 were missed)
 	{"pkg-symbol", "'keyword"}, {"pkg-keyword", ":keyword"}, {"pkg-string", "\"keyword\""}, {"ragged-alist", "'((a . 1) (b))"},
 	{"list-of-empty", "'(())"}, {"list-of-list1", "'((a))"}, {"plist", "'(:a 1 :b)"}, {"neg-big", "-4611686018427387905"},
+	// sizes between "a few" and "does not fit", byte specifiers, zero as a float (added after a review: make-array 300000000,
+	// ash by -100, dpb with (byte -1 0) and format ~F of 0.0 were not reachable from the pool)
+	{"mid-fix", "300000000"}, {"neg-hundred", "-100"}, {"byte-spec", "(byte 2 1)"}, {"neg-byte-spec", "(byte -1 0)"},
+	{"huge-byte-spec", "(byte 4611686018427387904 0)"}, {"zero-double", "0.0d0"}, {"one-digit-float", "0.001"},
+}
+
+// the objects of the exhaustive 3-tuple grid (every function x core^3)
+var core = []string{"nil", "zero", "one", "neg", "bignum", "string", "list", "function", "neg-byte-spec"}
+
+// call sites outside the reach of the pool: (key, program). A long-float with a huge exponent is not in the pool because nearly
+// every numeric function hangs on it (one root cause, see the known finding); two call sites stand for it.
+var extras = [][2]string{
+	{"common-lisp:+/2", "(+ 1l99999999 2)"},
+	{"common-lisp:princ-to-string/1", "(princ-to-string 1l99999999)"},
+	{"common-lisp:make-array/1", "(make-array 300000000)"},
+	{"common-lisp:make-sequence/2", "(make-sequence 'list 300000000)"},
+	{"common-lisp:make-sequence/2", "(make-sequence 'vector 4611686018427387904)"},
+	{"common-lisp:make-string/3+", "(make-string 4611686018427387904 :initial-element #\\a)"},
+	{"common-lisp:make-string/3+", "(make-string 300000000 :initial-element (code-char 1635))"},
+	{"common-lisp:make-list/3+", "(make-list 300000000 :initial-element 1)"},
+	{"common-lisp:make-array/3+", "(make-array 300000000 :element-type 'octet)"},
+	// the total size of a multi-dimensional array is not limited (array-total-size-limit is most-positive-fixnum) and
+	// the product of the dimensions can overflow: one root cause, two call sites (known findings)
+	{"common-lisp:make-array/1", "(make-array '(70000 70000))"},
+	{"common-lisp:aref/3+", "(aref (make-array '(268435456 268435456 268435456)) 1 1 1)"},
+	{"common-lisp:typecase/2", "(typecase nil (t 2))"},
+	{"common-lisp:floor/2", "(floor 3/4 0)"},
+	{"common-lisp:setf/2", "(let ((h (make-hash-table))) (setf (gethash '(1 2) h) 3))"},
+	{"flavors:make-instance/2", "(progn (defflavor c09-fl (a) () :initable-instance-variables) (make-instance 'c09-fl :a))"},
 }
 
 // the kinds that most often sit on the edge of a missing check; used for the quick 2-tuple grid
@@ -176,8 +205,21 @@ func Run(ctx *common.Ctx) {
 			}
 			add(as...)
 		}
+		// every 3-tuple over the core objects
+		for _, a := range core {
+			for _, b := range core {
+				for _, c := range core {
+					add(poolByKind(a), poolByKind(b), poolByKind(c))
+				}
+			}
+		}
 		groups = append(groups, g)
 		keys = append(keys, ks)
+	}
+	for _, e := range extras {
+		groups = append(groups, []job{mk(e[1])})
+		keys = append(keys, []string{e[0]})
+		ctx.Hist("extra-call-site")
 	}
 	// deep evaluation, with and without tracing (the trace hooks replace the catch-all hooks; added after seeded
 	// change C09-6 was missed): nested calls and recursion at depths around the hooks' indentation limits
@@ -220,7 +262,8 @@ func Run(ctx *common.Ctx) {
 	if ctx.Thorough() {
 		nrand = 3000000
 	}
-	rg := []job{{Kind: "read-sweep", Src: "short", Deadline: 300}, {Kind: "read-sweep", Src: "triples", Deadline: 300}, {Kind: "read-sweep", Src: "quads", Deadline: 600}}
+	rg := []job{{Kind: "read-sweep", Src: "short", Deadline: 300}, {Kind: "read-sweep", Src: "triples", Deadline: 300}, {Kind: "read-sweep", Src: "quads", Deadline: 600},
+		{Kind: "read-sweep", Src: "templates", Deadline: 300}}
 	for i := 0; i < 12; i++ {
 		rg = append(rg, job{Kind: "read-sweep", Src: "random", Seed: ctx.Seed*1000 + uint64(i), Count: nrand / 12, Deadline: 600})
 	}
@@ -415,7 +458,7 @@ func Run(ctx *common.Ctx) {
 	ctx.WriteShards("cases", header, "case", footer, terms, descs, 16)
 	ctx.Meta.Evaluations = total
 	ctx.Meta.DistinctNontrivial = total
-	ctx.Meta.Rule = fmt.Sprintf("every function of the packages cl, gi, bag, clos, flavors, generic, ... (%d swept, deny-list for those that exit, sleep, block on input or touch files/network) applied to the empty tuple, every 1-tuple of a %d-object pool, all %d 2-tuples and seeded 3..5-tuples, nested calls and recursion 10..200 deep with tracing off and on, each function in a process of its own with a 4 s deadline and a memory limit; format control strings over the directive alphabet with prefix parameters (numbers, 'c, v, #), modifiers and 0..4 arguments; the reader on every byte string of length 1 and 2, every length-3 string over its syntax bytes, every length-4 string over 24 core syntax bytes and random strings. Outcome classes: value / Lisp condition / host fault (runtime error, interface conversion, unhashable key, non-Lisp panic) / hang / process death; every fault is re-run alone in a fresh process before it counts", len(fns), len(pool), len(pool)*len(pool))
+	ctx.Meta.Rule = fmt.Sprintf("every function of the packages cl, gi, bag, clos, flavors, generic, ... (%d swept, deny-list for those that exit, sleep, block on input or touch files/network) applied to the empty tuple, every 1-tuple of a %d-object pool, all %d 2-tuples, all 3-tuples over a 9-object core and seeded 3..5-tuples, nested calls and recursion 10..200 deep with tracing off and on, each function in a process of its own with a 4 s deadline and a memory limit; format control strings over the directive alphabet with prefix parameters (numbers, 'c, v, #), modifiers and 0..4 arguments; the reader on every byte string of length 1 and 2, every length-3 string over its syntax bytes, every length-4 string over 24 core syntax bytes, templates (#n dispatch macros x nested contents, numbers with every exponent marker x exponents up to 10^8, nesting 10^4 deep) and random strings. Outcome classes: value / Lisp condition / host fault (runtime error, interface conversion, unhashable key, non-Lisp panic) / hang / process death; every fault is re-run alone in a fresh process before it counts", len(fns), len(pool), len(pool)*len(pool))
 }
 
 func outcomeKind(r result) string {
